@@ -544,16 +544,17 @@ fn finish(r: Option<tiny_http_rt::Request>) -> (Option<u64>, u64, Option<tiny_ht
 pub fn run_backlog(id: usize, rng: &mut Rng) -> String {
     // no injected latency here (`p_timer` lets the clock run ahead of a runnable thread, by any amount):
     // the scenario measures what is left a fixed time after the clients went away
-    let cfg = Config { seed: rng.next(), p_timer: 0, p_preempt: *rng.pick(&[0u64, 0, 100]), max_steps: 2_000_000, ..Config::default() };
+    let cfg = Config { seed: rng.next(), p_timer: 0, p_preempt: *rng.pick(&[0u64, 0, 100]), p_atomic: *rng.pick(&[0u64, 300, 700]), max_steps: 2_000_000, ..Config::default() };
     let conns = *rng.pick(&[1usize, 1, 2, 6, 12, 20]);
     let per = if conns <= 2 { rng.range(9, 30) } else { rng.range(1, 3) };
     let take = *rng.pick(&[0usize, 0, 1, 3]);
-    let ((queued, answered, taken, base, after_drop, after, left), rep) = sched::run(&cfg, move || {
+    let ((queued, answered, taken, base, after_drop, after, left, refused), rep) = sched::run(&cfg, move || {
         let live = || sched::threads().iter().filter(|(n, st)| (n.starts_with("task_pool.rs") || n.starts_with("lib.rs")) && !matches!(st, TState::Finished)).count();
         let base = live();
         let server = Server::http("127.0.0.1:0").expect("server");
         let addr = server.server_addr().to_ip().unwrap();
         let mut clients = vec![];
+        let mut late = vec![];
         let mut queued = 0usize;
         for c in 0..conns {
             if let Ok(s) = verif_rt::net::TcpStream::connect(addr) {
@@ -578,6 +579,14 @@ pub fn run_backlog(id: usize, rng: &mut Rng) -> String {
         drop(server);
         sched::settle(1_000_000_000);
         let after_drop = live();
+        // the listener is gone with the server: a new connection attempt is refused
+        let refused = match verif_rt::net::TcpStream::connect(addr) {
+            Err(_) => true,
+            Ok(s) => {
+                late.push(s);
+                false
+            }
+        };
         // requests already handed out can still be answered
         let mut answered = 0usize;
         for rq in held {
@@ -587,6 +596,7 @@ pub fn run_backlog(id: usize, rng: &mut Rng) -> String {
         }
         sched::settle(1_000_000_000);
         drop(clients);
+        drop(late);
         // more than the idle period (5 s), twice
         sched::settle(11_000_000_000);
         let after = live();
@@ -605,10 +615,10 @@ pub fn run_backlog(id: usize, rng: &mut Rng) -> String {
                 }
             }
         }
-        (queued, answered, taken, base, after_drop, after, left)
+        (queued, answered, taken, base, after_drop, after, left, refused)
     });
     format!(
-        "srv id={} kind=backlog conns={} n={} taken={} answered={} base={} after_drop={} after={} aborted={} clock={} left={}",
-        id, conns, queued, taken, answered, base, after_drop, after, if rep.aborted { 1 } else { 0 }, rep.clock, left.join(",")
+        "srv id={} kind=backlog conns={} n={} taken={} answered={} base={} after_drop={} after={} refused={} aborted={} clock={} left={}",
+        id, conns, queued, taken, answered, base, after_drop, after, if refused { 1 } else { 0 }, if rep.aborted { 1 } else { 0 }, rep.clock, left.join(",")
     )
 }
